@@ -115,6 +115,31 @@ PROPS = {
         },
         "assumptions": COMMON_ASSUME + STR_STUBS[:2] + STR_STUBS[3:6],
     },
+    "C10": {
+        "groups": [{"name": "diode", "tags": "verif", "run": "^VH_C10_((waiter|poller)_(1x2|2x1)_s[12]_(fresh|steady)_(close|quiesce)|stuck_writer_.*)$", "flags": {"harness-timeout": 200, "max-paths": 150000, "witnesses": 1},
+                    "quick": {"preempt": 2, "run": "^VH_C10_(((waiter|poller)_(1x2|2x1)_s[12]_fresh|poller_1x2_s[12]_steady)_(close|quiesce)|stuck_writer_poller)$"}, "thorough": {"preempt": 3, "harness-timeout": 3000, "max-paths": 5000000}}],
+        "level": "model_checking", "msg_filter": "^C10", "engine_only_kinds": ["assert", "deadlock", "panic"], "witness_replays": {"quick": 1, "thorough": 1},
+        "bounds": {"quick": "real diode.Writer in waiter and poller mode; (producers x writes) in {1x2, 2x1} x ring size {1,2} x start {fresh = as NewManyToOne leaves it (first lap), steady = arbitrary symbolic position >= size and < 2^62}; both phases (quiesce / Close); preemption bound 2 with sleep-set reduction; a wrapped writer that blocks forever with 2 producers x 2 writes",
+                   "thorough": "adds 1x3, 2x2 and ring size 3, preemption bound 3",
+                   "assertions": "every delivered buffer equals the argument of exactly one Write, none twice, per-producer order, alerts positive and their sum <= ring positions claimed, Write returns 2,nil; producers finish although the wrapped writer never returns"},
+        "assumptions": COMMON_ASSUME + ["threads are interleaved at visible operations only (sync/atomic, Mutex, Cond, channel, WaitGroup, time.Sleep, go); code between two visible operations of a thread is assumed not to race with other threads", "package context's own synchronisation is trusted: its operations are atomic steps", "sync.Pool (bufPool) is a LIFO free list; time.Sleep = 'time passes when nothing else can run'", "schedule counterexamples are reported from the engine's exploration (kinds assert/deadlock are engine-only for these properties: the native replay cannot force a schedule without instrumenting the diode sources)", "fewer than 2^64 ring positions are claimed in the life of a diode"],
+    },
+    "C11": {
+        "groups": [{"name": "diode", "tags": "verif", "run": "^VH_C10_(waiter|poller)_(1x1|1x2|1x3|2x1)_s[12]_(fresh|steady)_close$", "flags": {"harness-timeout": 200, "max-paths": 150000, "witnesses": 1},
+                    "quick": {"preempt": 2, "run": "^VH_C10_((poller_(1x1|1x2|1x3|2x1)_s[12]_fresh)|(poller_(1x1|1x2)_s[12]_steady)|(waiter_(1x1|1x2|2x1)_s[12]_fresh))_close$"}, "thorough": {"preempt": 3, "harness-timeout": 3000, "max-paths": 5000000}}],
+        "level": "model_checking", "msg_filter": "^C11", "engine_only_kinds": ["assert", "deadlock", "panic"], "witness_replays": {"quick": 1, "thorough": 1},
+        "bounds": {"quick": "Close phase: after all Writes returned and Close returned, delivered + reported >= written (== when no producer retried), nothing dropped while fewer messages than the ring size are outstanding; configurations 1x1, 1x2, 1x3, 2x1 x size {1,2} x {fresh, steady(symbolic)}, waiter and poller; preemption bound 2 + sleep sets",
+                   "thorough": "adds 2x2, size 3, preemption bound 3"},
+        "assumptions": COMMON_ASSUME + ["threads are interleaved at visible operations only (sync/atomic, Mutex, Cond, channel, WaitGroup, time.Sleep, go); code between two visible operations of a thread is assumed not to race with other threads", "package context's own synchronisation is trusted: its operations are atomic steps", "sync.Pool (bufPool) is a LIFO free list; time.Sleep = 'time passes when nothing else can run'", "schedule counterexamples are reported from the engine's exploration (kinds assert/deadlock are engine-only for these properties: the native replay cannot force a schedule without instrumenting the diode sources)", "fewer than 2^64 ring positions are claimed in the life of a diode"],
+    },
+    "C12": {
+        "groups": [{"name": "diode", "tags": "verif", "run": "^VH_C10_(waiter|poller)_(1x1|1x2|1x3|2x1)_s[12]_(fresh|steady)_quiesce$", "flags": {"harness-timeout": 200, "max-paths": 150000, "witnesses": 1},
+                    "quick": {"preempt": 2, "run": "^VH_C10_((poller_(1x1|1x2|1x3|2x1)_s[12]_fresh)|(poller_(1x1|1x2)_s[12]_steady)|(waiter_(1x1|1x2|2x1)_s[12]_fresh))_quiesce$"}, "thorough": {"preempt": 3, "harness-timeout": 3000, "max-paths": 5000000}}],
+        "level": "model_checking", "msg_filter": "^C12", "engine_only_kinds": ["assert", "deadlock", "panic"], "witness_replays": {"quick": 1, "thorough": 1},
+        "bounds": {"quick": "quiesce phase: after all Writes returned, with NO later Write or Close, the system runs until no thread can move (the scheduler knows); every message must have been delivered or reported; Close must return in the Close phase (a global deadlock is a violation); configurations as C11",
+                   "thorough": "adds 2x2, size 3, preemption bound 3"},
+        "assumptions": COMMON_ASSUME + ["threads are interleaved at visible operations only (sync/atomic, Mutex, Cond, channel, WaitGroup, time.Sleep, go); code between two visible operations of a thread is assumed not to race with other threads", "package context's own synchronisation is trusted: its operations are atomic steps", "sync.Pool (bufPool) is a LIFO free list; time.Sleep = 'time passes when nothing else can run'", "schedule counterexamples are reported from the engine's exploration (kinds assert/deadlock are engine-only for these properties: the native replay cannot force a schedule without instrumenting the diode sources)", "fewer than 2^64 ring positions are claimed in the life of a diode"],
+    },
     "C13": {
         "groups": [
             {"name": "int", "tags": "verif", "run": "^VH_C13_(basic_step|compose)$", "flags": {"solver": "cvc5-int", "solver-timeout-ms": 120000}},
@@ -165,6 +190,24 @@ NOT_APPLICABLE = [
 ]
 
 MANIFEST_TEXT = {
+    "C12": {
+        "level_text": "Same explorer, quiescence phase: the scheduler detects when no thread can move; at that point everything written must be delivered or reported; global deadlocks (Close not returning) are violations.",
+        "design_ref": "DESIGN.md §3 C10-C12",
+        "level_note": "Hole-stall known finding applies here too. Weak fairness only: a thread that stays enabled is eventually run; time.Sleep wakes when nothing else can run.",
+        "technique": "bounded symbolic execution of the real go/ssa with an explicit thread scheduler (schedule = exploration decision, sleep sets, preemption bound) + SMT (z3) for symbolic ring positions",
+    },
+    "C11": {
+        "level_text": "Same explorer, Close phase: at the terminal state delivered + reported >= written.",
+        "design_ref": "DESIGN.md §3 C10-C12",
+        "level_note": "One known finding (hole-stall) listed in known_findings.json; three defects fixed (close race, first-lap overwrite; lost wake-up under C12).",
+        "technique": "bounded symbolic execution of the real go/ssa with an explicit thread scheduler (schedule = exploration decision, sleep sets, preemption bound) + SMT (z3) for symbolic ring positions",
+    },
+    "C10": {
+        "level_text": "Bounded model checking of the real diode code under a scheduler that makes every interleaving choice at atomic/mutex/cond/channel granularity an exploration decision (stateless DFS by re-execution, sleep-set partial-order reduction, preemption bound), with symbolic initial ring positions decided by the solver.",
+        "design_ref": "DESIGN.md §3 C10-C12",
+        "level_note": "Bounded configurations and preemption bound; counterexamples are engine traces (schedule printed in the replay file), not forced natively.",
+        "technique": "bounded symbolic execution of the real go/ssa with an explicit thread scheduler (schedule = exploration decision, sleep sets, preemption bound) + SMT (z3) for symbolic ring positions",
+    },
     "C02": {
         "level_text": "Bounded model checking of semantic round trips and of relational equality between entry points on the real encoder: values are symbolic over their full width, the reference decoders/renderers are short Go functions in the harness executed symbolically alongside the implementation, and the solver decides equality for every value within the bounds.",
         "design_ref": "DESIGN.md §3 C02",
